@@ -107,6 +107,10 @@ theorem adoptUnrecordedTasks_ok (s : Sys) (jo : JobObj) (tasks : List Task) (ht 
   · obtain ⟨p, _, hp⟩ := List.mem_filterMap.mp h
     exact (podTask_ok hp).1
 
+theorem finalizerTasks_ok (s : Sys) (jo : JobObj) (rj : Job) : ∀ t ∈ finalizerTasks s jo rj, TaskOK t := by
+  unfold finalizerTasks
+  exact adoptUnrecordedTasks_ok s _ _ (tasksForRefsConfirmed_ok s rj.status.tasks)
+
 /-! ### status recomputation -/
 
 theorem syncJobStatusFromTaskRefs_spec (s : Sys) (key : String) (rj : Job) :
@@ -366,10 +370,12 @@ theorem handlePendingTasks_spec (s : Sys) (jo : JobObj) (sp : Sys) (rj : Job) (t
         exact ⟨(Micros.frame hfold).trans hd, ite_some_none_le ok (markDeleted_le rj _ _ (fun r => rfl))⟩
 
 theorem handleKillJob_spec (s : Sys) (jo : JobObj) (sp : Sys) (rj : Job) (tasks : List Task) :
-    Micros jo sp s (handleKillJob s rj tasks).1 ∧ OutLe rj (handleKillJob s rj tasks).2 := by
+    Micros jo sp s (handleKillJob s jo rj tasks).1 ∧ OutLe rj (handleKillJob s jo rj tasks).2 := by
   unfold handleKillJob
   split
-  · exact ⟨.refl s, by intro _ h; cases h; exact JobLe.refl _⟩
+  · split
+    · exact ⟨.frame (enqueueAfter_frame _ _ _), by intro _ h; cases h; exact JobLe.refl _⟩
+    · exact ⟨.refl s, by intro _ h; cases h; exact JobLe.refl _⟩
   · (try simp only)
     split
     · exact ⟨.refl s, by intro _ h; cases h; exact JobLe.refl _⟩
@@ -445,7 +451,7 @@ theorem syncJobTasks_spec (s : Sys) (jo : JobObj) (sp : Sys)
       (try simp only)
       have hle3 : JobLe jo.job rj3 := (hle1.trans h2.2).trans (h3.2 rj3 rfl)
       have h4 := handleKillJob_spec s3 jo sp rj3 tasks1
-      generalize handleKillJob s3 rj3 tasks1 = r4 at h4 ⊢
+      generalize handleKillJob s3 jo rj3 tasks1 = r4 at h4 ⊢
       obtain ⟨s4, o4⟩ := r4
       cases o4 with
       | none => (try simp only); exact ⟨m3.trans h4.1, by intro _ h; cases h⟩
@@ -476,7 +482,7 @@ theorem handleTTL_micros (s : Sys) (jo : JobObj) (sp : Sys) (rj : Job) : Micros 
   · split
     · exact .refl s
     · split
-      · exact .refl s
+      · exact .frame (enqueueAfter_frame _ _ _)
       · exact .single (.delJob s)
 
 theorem handleFinalizer_spec (s : Sys) (jo : JobObj) (sp : Sys) (rj : Job) (fin : Bool) :
@@ -489,16 +495,16 @@ theorem handleFinalizer_spec (s : Sys) (jo : JobObj) (sp : Sys) (rj : Job) (fin 
     · exact ⟨.refl s, by intro _ _ h; cases h; exact JobLe.refl _⟩
     · (try simp only)
       split
-      · have ht := tasksForRefsConfirmed_ok s rj.status.tasks
+      · have ht := finalizerTasks_ok s jo rj
         have h1 := updateTaskRefStatus_spec s (jobKey jo)
-          ((tasksForRefsConfirmed s rj.status.tasks).foldl (fun acc t => updateTaskRefDeletedStatusIfNotSet acc t.name
+          ((finalizerTasks s jo rj).foldl (fun acc t => updateTaskRefDeletedStatusIfNotSet acc t.name
             { state := .terminated, result := .killed, reason := "JobDeleted" }) rj)
-          (tasksForRefsConfirmed s rj.status.tasks) ht
-        generalize updateTaskRefStatus s (jobKey jo) _ (tasksForRefsConfirmed s rj.status.tasks) = r1 at h1 ⊢
+          (finalizerTasks s jo rj) ht
+        generalize updateTaskRefStatus s (jobKey jo) _ (finalizerTasks s jo rj) = r1 at h1 ⊢
         obtain ⟨s1, rj2⟩ := r1
         (try simp only)
-        have hd := deleteTasks_micros jo sp s1 (tasksForRefsConfirmed s rj.status.tasks) false
-        generalize deleteTasks s1 (tasksForRefsConfirmed s rj.status.tasks) false = r2 at hd ⊢
+        have hd := deleteTasks_micros jo sp s1 (finalizerTasks s jo rj) false
+        generalize deleteTasks s1 (finalizerTasks s jo rj) false = r2 at hd ⊢
         obtain ⟨s2, ok⟩ := r2
         (try simp only)
         refine ⟨(Micros.frame h1.1).trans hd, ?_⟩
